@@ -309,29 +309,30 @@ def check_thunk_macro(prog):
 
 
 def check_shared_caches(prog):
-    """a memo cell that is cloned with its owner must be shared (Cc/Rc), otherwise each clone recomputes"""
+    """a memo cell that is cloned with its owner must be shared (Cc/Rc), otherwise each clone recomputes.  The cell is the field
+    whose type holds a RefCell (whatever it is called)"""
     obs = []
-    want = {
-        "jrsonnet_evaluator::arr::spec::ExprArray": "cached",
-        "jrsonnet_evaluator::arr::spec::MappedArray": "cached",
-        "jrsonnet_evaluator::val::CachedUnbound": "cache",
-    }
+    want = ("jrsonnet_evaluator::arr::spec::ExprArray", "jrsonnet_evaluator::arr::spec::MappedArray", "jrsonnet_evaluator::val::CachedUnbound")
+    seen = set()
     for unit, a in prog.adts():
-        if a["path"] in want:
-            fld = want[a["path"]]
-            key = "%s.%s:shared" % (short_path(a["path"]), fld)
-            ty = None
-            for v in a["variants"]:
-                for x in v["fields"]:
-                    if x["name"] == fld:
-                        ty = x["ty"]
-            stt = "%s:%s" % (a["file"], a["line"])
-            if ty is None:
-                obs.append(bad(RULE, key, stt, "field %s not found" % fld))
-            elif ty.startswith(("jrsonnet_gcmodule::cc::RawCc<", "alloc::rc::Rc<")):
-                obs.append(ok(RULE, key, stt, "memo cell is behind a shared pointer (%s...), clones share one cache" % ty[:40]))
-            else:
-                obs.append(bad(RULE, key, stt, "memo cell %s has type %s: the owner is Clone (get_lazy clones it), so each clone would get a private cache and elements are evaluated more than once" % (fld, ty)))
+        if a["path"] not in want or a["path"] in seen:
+            continue
+        seen.add(a["path"])
+        # keys keep the historical names of the cells
+        name = "cache" if a["path"].endswith("CachedUnbound") else "cached"
+        key = "%s.%s:shared" % (short_path(a["path"]), name)
+        cells = [(x["name"], x["ty"]) for v in a["variants"] for x in v["fields"] if "RefCell<" in x["ty"]]
+        stt = "%s:%s" % (a["file"], a["line"])
+        if not cells:
+            obs.append(bad(RULE, key, stt, "no RefCell memo cell found in %s" % short_path(a["path"])))
+        elif all(ty.startswith(("jrsonnet_gcmodule::cc::RawCc<", "alloc::rc::Rc<")) for n_, ty in cells):
+            obs.append(ok(RULE, key, stt, "memo cell `%s` is behind a shared pointer, clones share one cache" % cells[0][0]))
+        else:
+            n_, ty = [c for c in cells if not c[1].startswith(("jrsonnet_gcmodule::cc::RawCc<", "alloc::rc::Rc<"))][0]
+            obs.append(bad(RULE, key, stt, "memo cell %s has type %s: the owner is Clone (get_lazy clones it), so each clone would get a private cache and elements are evaluated more than once" % (n_, ty)))
+    for pth in want:
+        if pth not in seen:
+            obs.append(bad(RULE, "%s:shared" % short_path(pth), "", "%s not found" % pth))
     return obs
 
 
